@@ -165,6 +165,11 @@ def _drive(rep, args, label, timeout=1800):
     t0 = time.time()
     st = C.run_fv(args + ["--out", out] + (["--kf", ",".join(kf)] if kf else []), timeout=timeout, binary=BIN)
     rep.extra.setdefault("driver_stats", []).append(dict(st, driver=label, wall_s=round(time.time() - t0, 1)))
+    # children whose shutdown returned at the library's join deadline (overloaded machine) are not judged;
+    # if that happens to more than a few, the run says nothing
+    if st.get("deadline_exceeded", 0) > max(2, st.get("configs", 0) // 20):
+        raise C.ToolError("%s: %d of %d children hit the shutdown deadline (machine overloaded?)" % (
+            label, st["deadline_exceeded"], st.get("configs", 0)))
     return out, st
 
 
@@ -180,17 +185,17 @@ def C19(rep):
     _validate(rep, "RouteTrace", out, "route-inproc-tlc", batch_records=1500)
     os.unlink(out)
     # ... and seeded random trees with 3 loggers over all 6 levels
-    out, _ = _drive(rep, ["route-inproc", "--random", _n(rep, 6000, 40000), "--seed", rep.seed, "--group", 100],
+    out, _ = _drive(rep, ["route-inproc", "--random", _n(rep, 6000, 20000), "--seed", rep.seed, "--group", 100],
                     "route-inproc-random")
     _validate(rep, "RouteTrace", out, "route-inproc-random", batch_records=1500)
     os.unlink(out)
     # end to end in child processes: init_from_file, log + tracing macros, files and streams read back
-    out, st = _drive(rep, ["e2e", "--mode", "route", "--configs", _n(rep, 40, 400), "--seed", rep.seed, "--jobs", 4,
+    out, st = _drive(rep, ["e2e", "--mode", "route", "--configs", _n(rep, 40, 300), "--seed", rep.seed, "--jobs", 4,
                            "--tmp", _tmp()], "e2e-route")
     _validate(rep, "PipeTrace", out, "e2e-route")
     os.unlink(out)
     # pipeline: free-running emitters, shutdown / guard drop at a seeded moment
-    out, st = _drive(rep, ["e2e", "--mode", "stress", "--configs", _n(rep, 100, 600), "--seed", rep.seed + 17, "--jobs", 4,
+    out, st = _drive(rep, ["e2e", "--mode", "stress", "--configs", _n(rep, 100, 400), "--seed", rep.seed + 17, "--jobs", 4,
                            "--tmp", _tmp()], "e2e-shutdown")
     _validate(rep, "PipeTrace", out, "e2e-shutdown")
     os.unlink(out)
@@ -202,6 +207,8 @@ def C19(rep):
         "in-process routing goes through the guarded accessor fibre_logging::verif::Router (real build_filter_for_appender + "
         "EventProcessor::process_event, with the log-bridge and tracing fast-path checks); the global subscriber is exercised by the child processes",
         "console appenders and the debug_report appender are not observed; only the blocking overflow policy is used end to end",
+        "a child whose shutdown()/drop returned because the library's join deadline (10 s / 5 s) expired is not judged (counted as deadline_exceeded): "
+        "the deadline is the documented escape for stuck writers and is only reached here on an overloaded machine",
         "emitter interleavings are chosen by the OS scheduler (small channel capacities, slow consumers and a seeded shutdown point widen the windows); not exhaustive",
     ]
 
